@@ -6,17 +6,22 @@
    [tdelete] = _delete/_delete_kv_node/_delete_branch_node/_normalize_branch_node,
    [tget] = _traverse_from + _get, set(k, b"") routed to delete) implement the map.
 
-   FULL STATEMENT (C01_D): for every history of API calls (direct or batched, pruning or
-   not) on the database-level machine of Hexary/D.v, [get] returns [Ok (spec k)] and
-   never raises.  Proved parts: the tree level below (C01_map, C01_exists), the purity of
-   reads and the database-level safety facts in Properties/C04, C05, C07.  The remaining
-   link (write refinement: the database-level writes produce a database representing the
-   tree-level result) is exercised on every correspondence case by comparing the
-   implementation, the D-level model and the T-level model (hexary_run / c01_T_run). *)
-From Coq Require Import List NArith Bool.
+   DATABASE LEVEL (C01_D_nonpruning / C01_D_pruning at the end of this file): for every
+   history of direct set / delete / set-to-empty calls on the machine of Hexary/D.v from an
+   empty database, pruning off or on, every call succeeds, and afterwards [get k] returns
+   [Ok (spec k)] for every byte-string key (write refinement D -> T, Hexary/Refine_write*.v,
+   + read refinement + the tree-level map theorem).  Premises: no hash collision among the
+   finitely many node bodies the history writes ([hist_bodies], an executable list, which
+   includes the intermediate nodes a delete persists before merging them away) and those
+   bodies shorter than 2^64 bytes.  NOT covered by a theorem: histories that go through
+   squash_changes (a ScratchDB-backed inner trie); for those the link rests on the
+   correspondence check (implementation = D-level model = T-level model on every case) and on
+   the batch theorems of Properties/C05. *)
+From Coq Require Import List NArith ZArith Bool.
 From PyTrie.Base Require Import Bytes Result Nibbles.
 From PyTrie.Base Require Import AMap Rlp.
-From PyTrie.Hexary Require Import Raw Tree Tree_aux Tree_map D D_read Refine_read.
+From PyTrie.Hexary Require Import Raw Tree Tree_aux Tree_map D D_read Refine_read Refine_write Refine_write_prune.
+From PyTrie.Hexary Require Tree_unique.
 Import ListNotations.
 
 Theorem C01_map : forall ops q, ops_ok ops -> nibs_ok q = true -> tget (trun ops) q = spec_run ops q.
@@ -67,3 +72,37 @@ Example C01_example :
   /\ tget (trun ops) [1]%N = [] /\ tget (trun ops) [1;2]%N = B 1 0x63
   /\ tget (trun ops) [1;2;3;4;5;6]%N = B 1 0x61 /\ tget (trun ops) [1;2;3;4;5;7]%N = [] /\ tget (trun ops) [] = B 1 0x64.
 Proof. vm_compute. repeat split; repeat constructor. Qed.
+
+(* ---------------- every history, database level ---------------- *)
+(* [wrun] runs a list of API writes ((key, Some v) = set, (key, None) = delete) on the D-level
+   machine; [top_of] is the corresponding tree-level operation *)
+Theorem C01_D_nonpruning : forall H BNH, (forall x, length (H x) = 32%nat) -> BNH = H (rlp_encode (RStr [])) ->
+  forall ws : list wop,
+  cf H (hist_bodies H ws) -> Forall (fun b => (blen b < 2 ^ 64)%N) (hist_bodies H ws) ->
+  let ops := map top_of ws in
+  exists m,
+    wrun H BNH ws (empty_trie BNH false) = (map (fun _ => Ok tt) ws, plain m (troot H (trun ops))) /\
+    represents H m (troot H (trun ops)) (trun ops) /\ content_addressed H m /\
+    (forall k, fst (get BNH k (plain m (troot H (trun ops)))) = Ok (spec_run ops (bytes_to_nibbles k))) /\
+    (forall J, Tree_unique.good_bindings J -> (forall q, nibs_ok q = true -> lookup J q = spec_run ops q) ->
+               t_root (plain m (troot H (trun ops))) = yp_root H J).
+Proof. exact Refine_write.C01_D_nonpruning_small. Qed.
+Print Assumptions C01_D_nonpruning.
+
+Theorem C01_D_pruning : forall H BNH, (forall x, length (H x) = 32%nat) -> BNH = H (rlp_encode (RStr [])) ->
+  forall ws : list wop,
+  cf H (hist_bodies H ws) -> Forall (fun b => (blen b < 2 ^ 64)%N) (hist_bodies H ws) ->
+  let ops := map top_of ws in
+  exists m rc,
+    wrun H BNH ws (empty_trie BNH true) = (map (fun _ => Ok tt) ws, pstate H m rc (trun ops)) /\
+    represents H m (troot H (trun ops)) (trun ops) /\ content_addressed H m /\
+    (forall h, zget rc h = occR H (trun ops) h) /\
+    (forall h, amem m h = true <-> Z.lt 0%Z (occR H (trun ops) h)) /\
+    (forall k, fst (get BNH k (pstate H m rc (trun ops))) = Ok (spec_run ops (bytes_to_nibbles k))) /\
+    (forall J, Tree_unique.good_bindings J -> (forall q, nibs_ok q = true -> lookup J q = spec_run ops q) ->
+               t_root (pstate H m rc (trun ops)) = yp_root H J).
+Proof. exact Refine_write_prune.C01_D_pruning. Qed.
+Print Assumptions C01_D_pruning.
+
+(* the premises hold of a concrete 10-write history with the real Keccak-256 *)
+Print Assumptions ex_ws_theorem.
